@@ -100,12 +100,21 @@ def gen_plan(tape, cfg):
         if tape.chance(3, 4, "enable." + k):
             kinds.append((w, k))
     n = tape.rint(3, 10, "nops")
+    long_session = tape.chance(1, 50, "long_session")
+    if long_session:
+        # one portfolio used for a long time: many push / assert / solve / pop cycles, no faults.
+        # Whatever is kept per query (descriptors, processes) adds up against the descriptor limit.
+        family = "fault-free"
+        nmem = 3
+        n = 4 * tape.rint(35, 50, "long.cycles")
     ops = []
     nsolves = 0
     for j in range(n):
         k = tape.weighted(kinds, "op")
         if j == n - 1 and nsolves == 0:
             k = "solve"
+        if long_session:
+            k = ["push", "assert", "solve", "pop"][j % 4]
         o = {"op": k}
         if k == "assert" or k in ONESHOT or k == "shortcut":
             o["f"] = bp.gen_term(tape, bp.BOOL, 2, ctx)
@@ -149,6 +158,7 @@ def gen_plan(tape, cfg):
             "incremental": bool(tape.draw(2, "incremental")),
             "exit_on_exception": tape.chance(1, 4, "exit_on_exception"),
             "slow_start": tape.chance(1, 3, "slow_start"),
+            "long_session": long_session,
             "ops": ops}
 
 
@@ -219,10 +229,12 @@ def execute(plan, tape):
     mgr = env.formula_manager
     symbols = plan["symbols"]
     nmem = plan["members"]
-    kernel = Kernel(tape, max_steps=20000, max_time=300.0)
+    kernel = Kernel(tape, max_steps=20000 if not plan.get("long_session") else 2000000,
+                    max_time=300.0 if not plan.get("long_session") else 30000.0)
     world = World(kernel, tape)
     net = Net(kernel, tape)
     net.slow_start = bool(plan.get("slow_start"))
+    net.fd_limit = 64       # per process; a query of 4 members needs about a dozen
     names = list((plan.get("member_names") or ["m%d" % m for m in range(nmem)])[:nmem])
     if len(names) < nmem:
         names += ["m%d" % m for m in range(len(names), nmem)]
